@@ -1449,14 +1449,8 @@ where
     T: Node + Clone,
 {
     fn set_named_item(&self, arg: T) -> error::Result<Option<T>> {
-        let name = arg.node_name();
-        if let Ok(v) = self.remove_named_item(name.as_str()) {
-            (self.add)(&self.node, arg)?; // FIXME: revert on failed.
-            Ok(Some(v))
-        } else {
-            (self.add)(&self.node, arg)?;
-            Ok(None)
-        }
+        // `add` replaces an item of the same name and hands it back.
+        (self.add)(&self.node, arg)
     }
 
     fn remove_named_item(&self, name: &str) -> error::Result<T> {
@@ -1787,7 +1781,11 @@ impl ElementMut for XmlElement {
             return Err(error::DomException::WrongDocumentErr)?;
         }
 
-        if new_attr.attribute.borrow().parent_id().is_some() {
+        let owner_id = new_attr.attribute.borrow().parent_id();
+        if owner_id == Some(self.element.borrow().id()) {
+            // Replacing an attribute by itself has no effect.
+            return Ok(Some(new_attr));
+        } else if owner_id.is_some() {
             return Err(error::DomException::InuseAttributeErr)?;
         }
 
